@@ -162,7 +162,7 @@ def jobs(tier):
         if tr == 'lazy' and tier != 'thorough' and not (a == 1 and m == 0):
             continue
         stub, post = spec_for(op, a, m)
-        con = Contract(comb_requires(), Clause('assigns', 'IT_FIELDS(in), g_turn, g_pos, g_done, g_iter, g_last, g_called, g_ok, g_len, g_ncalls, g_ae, g_re, g_lp, vf_exc, vf_exc_counter, g_exc_obj, g_exc_type'))
+        con = Contract(comb_requires(), Clause('assigns', 'IT_FIELDS(in), g_turn, g_pos, g_done, g_iter, g_last, g_called, g_ok, g_len, g_ncalls, g_ae, g_re, g_lp, g_cur, vf_exc, vf_exc_counter, g_exc_obj, g_exc_type'))
         con.add(E('VALID_POST(in)', 'RC-VALID', ('C02', 'C03')))
         con.add(E('MONO(in)', 'RC-MONO', ('C02',)))
         con.add(E('BOOL01(RET)', 'ret-bool'))
@@ -191,7 +191,7 @@ def jobs(tier):
             for tr in ('eager', 'lazy'):
                 if tr == 'lazy' and tier != 'thorough' and not (a == 1 and m == 0):
                     continue
-                con = Contract(comb_requires(), Clause('assigns', 'IT_FIELDS(in), g_turn, g_pos, g_done, g_iter, g_last, g_called, g_ok, g_len, g_ncalls, g_ae, g_re, g_lp, vf_exc, vf_exc_counter, g_exc_obj, g_exc_type'))
+                con = Contract(comb_requires(), Clause('assigns', 'IT_FIELDS(in), g_turn, g_pos, g_done, g_iter, g_last, g_called, g_ok, g_len, g_ncalls, g_ae, g_re, g_lp, g_cur, vf_exc, vf_exc_counter, g_exc_obj, g_exc_type'))
                 con.add(E('VALID_POST(in)', 'RC-VALID', ('C02', 'C03')))
                 con.add(E('(STUB_RAISED && vf_exc.pending && vf_exc.obj == g_exc_obj) ==> vf_exc.type == g_exc_type', 'EXC-UNCHANGED', P))
                 con.add(E('g_called[0]', 'MUSTIF-CALLS-RULE', P))
